@@ -1324,20 +1324,31 @@ def recursion_typing(db, rule):
                     ok = Interp(db, on_call=on_call, max_steps=200000).call(f, [Obj(__kind__='cursor')], this)
                     cur = this['currentType']['v'] if isinstance(this['currentType'], Obj) and 'v' in this['currentType'] else None
                     # reference
-                    v = tab(init)
-                    if _lub(v, init) is None:
+                    # the variable holds the initial value before the first round and the result can be the initial value itself, so the type
+                    # of variable and result is the least type covering the initial value and the step: the fixed point of T = lub(step(T), init)
+                    below = lambda x, y: _lub(x, y) == y
+                    dom = list(table) + [init]
+                    if not all(below(tab(x), tab(y)) for x in dom for y in dom if below(x, y)):
+                        continue            # a step whose type is not monotone in the type of the variable does not arise from an expression
+                    v = _lub(tab(init), init)
+                    if v is None:
                         want = ('err',)
                     else:
+                        stable = False
                         for _ in range(5):
-                            nv = tab(v)
+                            sv = tab(v)
+                            nv = _lub(sv, init) if sv is not None else None
+                            if nv is None:
+                                break
                             if nv == v:
+                                stable = True
                                 break
                             v = nv
-                        want = ('ok', v)
+                        want = ('ok', v) if stable else ('err',)
                     why = None
                     if want[0] == 'err':
                         if ok or not log:
-                            why = 'the step has type %s, incompatible with the initial value %s, but the recursion is %s' % (_show_t(tab(init)), _show_t(init), 'accepted' if ok else 'rejected without an error')
+                            why = 'no type covers both the initial value %s and the step (type %s for a variable of that type; no fixed point of T = lub(step(T), init) within the deduction depth), but the recursion is %s' % (_show_t(init), _show_t(tab(init)), ('accepted with type %s' % (_show_t(cur) if cur else cur)) if ok else 'rejected without an error')
                     elif not ok:
                         why = 'well-typed recursion rejected (%s)' % log
                     elif cur != want[1]:
